@@ -60,5 +60,17 @@ def extra(rep, tier, seed):
     rep.extra["format_sequence_sweep"] = {"alphabet": fam, "length": 3, "sequences": len(corpus), "exhaustive": tier == "thorough"}
 
 
+# recorded inputs that run first on every run: generations are ordered by their number, not by their dates -- a later,
+# failed generation written under an EARLIER wall clock must not become the reference
+CORPUS = [
+    {"tree": {"a.txt": {"f": "68656c6c6f"}, "b.bin": {"f": "00ff"}},
+     "steps": [{"op": "clock", "t": "2024-05-02 10:00:00"}, {"op": "create", "fmts": ["xxh64"]},
+               {"op": "set", "path": "a.txt", "data": "776f726c64"},
+               {"op": "clock", "t": "2024-05-01 10:00:00"}, {"op": "create", "fmts": ["xxh64"]},
+               {"op": "set", "path": "a.txt", "data": "68656c6c6f"},
+               {"op": "clock", "t": "2024-05-03 10:00:00"}, {"op": "create", "fmts": ["xxh64", "md5"]},
+               {"op": "set", "path": "a.txt", "data": "776f726c64"},
+               {"op": "clock", "t": "2024-04-30 10:00:00"}, {"op": "create", "fmts": ["md5"]}, {"op": "verify"}]},
+]
 check, replay = make("C04", oracles.oracle_c04, scenario, 50, 1500, RULE, corpus_defects=[defects.d01_c04_format_sequence],
-                     nontrivial=lambda scn, obs: sum(1 for s in scn["steps"] if s["op"] == "create") >= 3, extra=extra)
+                     nontrivial=lambda scn, obs: sum(1 for s in scn["steps"] if s["op"] == "create") >= 3, extra=extra, corpus=CORPUS)
